@@ -1324,6 +1324,7 @@ fn prove_honest_cfg<C: Mc, P: crate::pv::Pv<EF = C::EF>>(c: &Case) -> Report {
         recompose: true,
         debug_lookups: false,
         poseidon2: Some(C::cfg()),
+        poseidon1: None,
     };
     let pk = p3_circuit_prover::TablePacking::new(1 + (c.data_mode as usize % 3), 1 + (c.cap_height as usize % 4));
     let rep = Report::pass()
